@@ -71,6 +71,7 @@ type Exec struct {
 	topFrame      *Frame
 	revealed      map[string]bool
 	usedLemmas    map[string]bool
+	lockSnap      *State // state right after the latest Lock() (havoc + invariant)
 }
 
 type unsupportedErr struct{ msg string }
@@ -242,15 +243,26 @@ func (ex *Exec) typeInv(st *State, v Val, t types.Type) {
 // validRef assumes that a pointer-like value read from memory or received as
 // a parameter is nil or allocated.
 func (ex *Exec) validRefs(st *State, v Val, t types.Type) {
+	// a reference obtained from memory (or from a caller) is nil or allocated,
+	// and is not one of this activation's objects that never escaped
+	notLocal := func(r string) string {
+		var cs []string
+		for _, l := range ex.localRefs {
+			if !ex.escaped[l] && l != r {
+				cs = append(cs, not(eq(r, l)))
+			}
+		}
+		return and(cs...)
+	}
 	switch kindOf(t) {
 	case KPtr, KMap:
 		if s, ok := v.(Sc); ok {
-			ex.assume(st, or(eq(s.T, bvInt(0, 64)), sel(st.alloc, s.T)))
+			ex.assume(st, or(eq(s.T, bvInt(0, 64)), and(sel(st.alloc, s.T), notLocal(s.T))))
 		}
 	case KSlice:
 		if a, ok := v.(*Agg); ok {
 			r := sc(a.F[0]).T
-			ex.assume(st, or(eq(r, bvInt(0, 64)), sel(st.alloc, r)))
+			ex.assume(st, or(eq(r, bvInt(0, 64)), and(sel(st.alloc, r), notLocal(r))))
 		}
 	case KStruct:
 		if a, ok := v.(*Agg); ok {
